@@ -406,6 +406,43 @@ def run(p: Program, rep: Report, tier: str) -> None:
         rep.undecide("R4.7", "no text-level use of PATH_INFO found in baize.wsgi")
     rep.require_instances("R4.7", 3)  # 4 on the pinned tree; Files and Pages may share one lookup method
 
+    # ---------------------------------------------------------------- R4.8 user code run on a pool thread sees the request's context
+    # An ASGI producer task inherits the context of the request; the WSGI relay (and every run_in_threadpool job) runs on a pool
+    # thread and sees the same ContextVars only because the context is COPIED IN THE SUBMITTING THREAD: `copy_context()` must be
+    # evaluated in the frame of submit() / run_in_threadpool() itself, not inside the callable that the worker runs.
+    cm = p.module("baize.concurrency")
+    sites = []
+    tpe = cm.classes.get("ThreadPoolExecutor")
+    if tpe is not None and tpe.methods.get("submit") is not None:
+        sites.append(tpe.methods["submit"])
+    if cm.functions.get("run_in_threadpool") is not None:
+        sites.append(cm.functions["run_in_threadpool"])
+    if len(sites) < 2:
+        raise AnalysisError("baize.concurrency: ThreadPoolExecutor.submit / run_in_threadpool vanished")
+    for f_ in sites:
+        rep.analysed(f_.fq)
+        own = [c_ for c_ in ast.walk(f_.node) if isinstance(c_, ast.Call) and ast.unparse(c_.func).split(".")[-1] == "copy_context"
+               and not any(isinstance(q_, (ast.Lambda, ast.FunctionDef, ast.AsyncFunctionDef)) and q_ is not f_.node for q_ in _parents_of(c_, f_.node))]
+        if own:
+            rep.ok("R4.8", f"{f_.fq}: the context is copied in the submitting frame")
+        else:
+            later = [g_ for g_ in cm.all_funcs if g_ is not f_ and any(isinstance(c_, ast.Call) and ast.unparse(c_.func).split(".")[-1] == "copy_context" for c_ in ast.walk(g_.node))
+                     and any(isinstance(n_, ast.Name) and n_.id == g_.name for n_ in ast.walk(f_.node))]
+            if later:
+                rep.violation("R4.8", construct(f_, text=f"copy_context() deferred to {later[0].name}"), where(f_),
+                              f"{f_.fq} hands `{later[0].name}` to the pool and the context is copied inside it - on the worker thread, whose context is empty: a lazily evaluated WSGI producer "
+                              "(SSE generator, run_in_threadpool job) no longer sees the request's ContextVars, while the ASGI task does")
+            else:
+                rep.undecide("R4.8", f"{f_.fq}: no copy_context() in the submitting frame (context propagation idiom not recognised)")
+    rep.require_instances("R4.8", 2)
+
+
+def _parents_of(node: ast.AST, root: ast.AST):
+    q = getattr(node, "_parent", None)
+    while q is not None and q is not root:
+        yield q
+        q = getattr(q, "_parent", None)
+
 
 # guard atoms that are gateway plumbing: they may appear in the guard set of any effect on one side only
 GATEWAY_GUARD_ATOMS = [
